@@ -21,8 +21,9 @@ type OrderKey struct {
 
 type C05Case struct {
 	Doc      map[string]any    `json:"doc"`
-	Env      Envelope          `json:"env,omitempty"`  // irrelevant options / table representation / repeated execution
-	Cols     []string          `json:"cols,omitempty"` // select list (empty = *)
+	Env      Envelope          `json:"env,omitempty"`   // irrelevant options / table representation / repeated execution
+	Cols     []string          `json:"cols,omitempty"`  // select list (empty = *)
+	Alias    []string          `json:"alias,omitempty"` // output names of Cols ("" = its own name); may be fresh or a permutation of the selected columns' names
 	Where    *sq.E             `json:"where,omitempty"`
 	Keys     []OrderKey        `json:"keys,omitempty"`
 	HasLimit bool              `json:"has_limit,omitempty"`
@@ -38,7 +39,7 @@ func init() {
 	Register(&Prop{
 		ID:    "C05",
 		Title: "ORDER BY sorts, LIMIT/OFFSET return the exact window and never fail",
-		Rule: "rapid draws a table (0-10 rows, ties frequent), 0-3 sort keys among the output columns with random directions (a single key may be " +
+		Rule: "rapid draws a table (0-10 rows, ties frequent), a select list that is `*` or columns under their own, fresh or mutually swapped output names, 0-3 sort keys among the output columns with random directions (a single key may be " +
 			"nullable), an optional WHERE, an optional DISTINCT, numeric columns also as native Go types (one key column sometimes as int64 / int / uint64 / uint beyond 2^53) and an optional LIMIT n [OFFSET m] in all three spellings with n,m in 0..len+3; oracles: the unordered " +
 			"result equals the reference filter; the ordered result is a permutation of it whose adjacent pairs respect the key list " +
 			"lexicographically with NULL keys last (single key); the limited result has length min(n, max(0,|S|-m)), its key tuples equal those of " +
@@ -77,6 +78,36 @@ func genC05(t *rapid.T) any {
 	avail := tb.Cols
 	if len(c.Cols) > 0 {
 		avail = tb.Cols[:len(c.Cols)]
+		switch rapid.IntRange(0, 5).Draw(t, "aliasmode") {
+		case 0: // fresh output names for some of the columns
+			c.Alias = make([]string, len(c.Cols))
+			for i := range c.Cols {
+				if rapid.Bool().Draw(t, fmt.Sprintf("fresh%d", i)) {
+					c.Alias[i] = fmt.Sprintf("o%d", i)
+				}
+			}
+		case 1: // the selected columns' own names, handed round: the output column x is not the source column x
+			if len(c.Cols) > 1 {
+				pm := rapid.Permutation(seqInts(len(c.Cols))).Draw(t, "aliasperm")
+				c.Alias = make([]string, len(c.Cols))
+				for i := range c.Cols {
+					if pm[i] != i {
+						c.Alias[i] = c.Cols[pm[i]]
+					}
+				}
+			}
+		}
+		if c.Alias != nil {
+			// the sort keys are output columns: name, kind and nullability of the column behind each output name
+			out := make([]Col, len(avail))
+			for i, col := range avail {
+				out[i] = col
+				if c.Alias[i] != "" {
+					out[i].Name = c.Alias[i]
+				}
+			}
+			avail = out
+		}
 	}
 	if rapid.IntRange(0, 2).Draw(t, "haswhere") == 0 {
 		c.Where = genPred(t, tb, &PredSpec{Core: rapid.Bool().Draw(t, "wcore")}, 1, "w")
@@ -102,7 +133,7 @@ func genC05(t *rapid.T) any {
 	}
 	c.Distinct = rapid.IntRange(0, 3).Draw(t, "distinct") == 0
 	c.GoTypes = genGoTypes(t, tb.Cols, "gotypes")
-	if c.Where == nil && len(c.Keys) > 0 && rapid.IntRange(0, 4).Draw(t, "big") == 0 {
+	if c.Where == nil && c.Alias == nil && len(c.Keys) > 0 && rapid.IntRange(0, 4).Draw(t, "big") == 0 {
 		// integers that float64 cannot tell apart: the engine receives base+v for the column's small
 		// values v, the reference keeps working on v (same order, same equalities)
 		for _, k := range c.Keys {
@@ -145,7 +176,14 @@ func genC05(t *rapid.T) any {
 func (c *C05Case) sql(order, limit bool) string {
 	sel := "*"
 	if len(c.Cols) > 0 {
-		sel = strings.Join(c.Cols, ", ")
+		var its []string
+		for i, col := range c.Cols {
+			if i < len(c.Alias) && c.Alias[i] != "" {
+				col += " AS " + c.Alias[i]
+			}
+			its = append(its, col)
+		}
+		sel = strings.Join(its, ", ")
 	}
 	s := "SELECT " + sel + " FROM t"
 	if c.Distinct {
@@ -220,8 +258,17 @@ func checkC05(c *C05Case) Result {
 	rows, _ := c.Doc["t"].([]any)
 	// reference for the unordered result
 	var items []SelItem
-	for _, col := range c.Cols {
-		items = append(items, SelItem{Expr: sq.Col(col)})
+	for i, col := range c.Cols {
+		it := SelItem{Expr: sq.Col(col)}
+		if i < len(c.Alias) && c.Alias[i] != "" {
+			it.Alias = c.Alias[i]
+			if it.Alias[0] == 'o' {
+				res.Labels = append(res.Labels, "alias:fresh")
+			} else {
+				res.Labels = append(res.Labels, "alias:swapped")
+			}
+		}
+		items = append(items, it)
 	}
 	star := 0
 	if len(c.Cols) == 0 {
